@@ -34,6 +34,7 @@ def run(prop, tier):
     known = common.load_known(prop)
     units = [dict(fn="unit_core", temp=t, irq_source=SRC[t % len(SRC)]) for t in range(14)]
     units += [dict(fn="unit_lcd")]
+    units += [dict(fn="unit_lcd_after_restore", fill=f, chip=c, page=p) for f in ("blank", "pattern") for c in (0, 1) for p in ((1, 4) if tier == "quick" else range(8))]
     keys = KEYS_QUICK if tier == "quick" else (all_keys() or KEYS_QUICK)
     units += [dict(fn="unit_keyboard", key=k, kol=kol, koh=koh, in_pressed_set=ps) for k in keys for (kol, koh) in ((0, 0), (0xFF, 0x0F)) for ps in (True, False)]
     units += [dict(fn="unit_keyboard", key="KEY_A", mode="regs", koh=h) for h in range(16)]
